@@ -18,7 +18,7 @@ ASSUMPTIONS = ["vlib/ref/evaluate.py implements RFC 9535 2.3.5 filter semantics 
 TECHNIQUE = "Hypothesis property-based testing, differential against an independent RFC 9535 reference evaluator"
 LEVEL_TEXT = ("Generated well-typed filter queries x generated JSON values (children of every kind), compared node "
               "for node with an independent reference evaluator; sampled, not exhaustive.")
-LEVEL_NOTE = "Trusted: vlib/ref evaluator, parser, I-Regexp matcher (self-test + triangulation). Function arguments that start with '!' or '(' are excluded while finding R is open (counted in the evidence)."
+LEVEL_NOTE = "Trusted: vlib/ref evaluator, parser, I-Regexp matcher (self-test + triangulation)."
 
 NAMES = ["a", "b", "c", "d", "e"]
 
